@@ -666,7 +666,7 @@ func execC08srv(t *testing.T, w *core.World, p *run.Plan, r *run.Result) {
 			w.Violate("C08.time", "C08.time|late|"+res.kind, fmt.Sprintf("%s returned after %v, timeout %v", name, d, timeout))
 		}
 		if res.alloc > allocBound(res.size) {
-			w.Violate("C08.alloc", "C08.alloc|"+res.kind+"|"+mut, fmt.Sprintf("%s: the %d-byte answer made the client allocate %d MiB (bound %d MiB)", name, res.size, res.alloc>>20, allocBound(res.size)>>20))
+			w.Violate("C08.alloc", "C08.alloc|"+res.kind, fmt.Sprintf("%s: the %d-byte answer made the client allocate %d MiB (bound %d MiB)", name, res.size, res.alloc>>20, allocBound(res.size)>>20))
 		}
 		if res.fault == nil && res.err != nil && res.served {
 			// an honest, valid answer must decode (sanity of the harness' material; conformance itself is C10)
@@ -679,7 +679,7 @@ func execC08srv(t *testing.T, w *core.World, p *run.Plan, r *run.Result) {
 		if res.probeP != nil {
 			w.Violate("C08.panic", "C08.panic|after|"+stripNums(fmt.Sprint(res.probeP)), fmt.Sprintf("the honest call after %s panicked: %v", name, res.probeP))
 		} else if res.probeErr != nil {
-			w.Violate("C08.survive", "C08.survive|"+res.kind+"|"+mut, fmt.Sprintf("after %s (err=%v) an honest GetTime on the same client failed: %v", name, res.err, res.probeErr))
+			w.Violate("C08.survive", "C08.survive", fmt.Sprintf("after %s (err=%v) an honest GetTime on the same client failed: %v", name, res.err, res.probeErr))
 		}
 		if res.err != nil {
 			w.Probe("call-error")
